@@ -95,7 +95,7 @@ _rule_named_ts = "|".join(r"(?P<t_{}>{})".format(n, expr) for n, expr in _named_
 _rule_named_ts = r"({})\s*".format(_rule_named_ts)
 
 
-@rule(_rule_named_ts + r"(uhr|h|o\'?clock)?")
+@rule(_rule_named_ts + r"((uhr|h|o\'?clock)\b)?")
 def ruleNamedHour(ts: datetime, m: RegexMatch) -> Optional[Time]:
     match = m.match
     for n, _, in _named_ts:
@@ -121,7 +121,7 @@ def _pod_from_match(pod: str, m: RegexMatch) -> str:
 
 
 @rule(
-    r"(?P<mod_very>(sehr|very)\s+)?"
+    r"(?P<mod_very>\b(sehr|very)\s+)?"
     "((?P<mod_early>früh(e(r|n|m))?|early)"
     "|(?P<mod_late>(spät(e(r|n|m))?|late)))",
     predicate("isPOD"),
@@ -138,8 +138,8 @@ _pods = [
     (
         "first",
         (
-            r"(erster?|first|earliest|as early|frühe?st(ens?)?|so früh)"
-            "( (as )?possible| (wie )?möglich(er?)?)?"
+            r"\b(erster?|first|earliest|as early|frühe?st(ens?)?|so früh)"
+            r"(( (as )?possible| (wie )?möglich(er?)?)\b)?"
         ),
     ),
     (
@@ -149,8 +149,8 @@ _pods = [
             "so spät wie möglich(er?)?)"
         ),
     ),
-    ("earlymorning", r"very early|sehr früh"),
-    ("lateevening", r"very late|sehr spät"),
+    ("earlymorning", r"\b(very early|sehr früh)"),
+    ("lateevening", r"\b(very late|sehr spät)"),
     ("morning", r"morning|morgend?s?|(in der )?frühe?|early"),
     ("forenoon", r"forenoon|vormittags?"),
     ("afternoon", r"afternoon|nachmittags?"),
@@ -182,7 +182,7 @@ def ruleMonthOrdinal(ts: datetime, m: RegexMatch) -> Time:
     return Time(month=int(m.match.group("month")))
 
 
-@rule(r"(?<!\d|\.)(?P<day>(?&_day))\s*(?:st|nd|rd|th|s?ten|ter)")
+@rule(r"(?<!\d|\.)(?P<day>(?&_day))\s*(?:st|nd|rd|th|s?ten|ter)\b")
 # a "[0-31]" followed by a th/st
 def ruleDOM2(ts: datetime, m: RegexMatch) -> Time:
     return Time(day=int(m.match.group("day")))
@@ -224,8 +224,8 @@ def ruleToday(ts: datetime, _: RegexMatch) -> Time:
 
 
 @rule(
-    r"(genau\s*)?jetzt|diesen moment|in diesem moment|gerade eben|"
-    r"((just|right)\s*)?now|immediately"
+    r"(\bgenau\s*)?jetzt|diesen moment|in diesem moment|gerade eben|"
+    r"(\b(just|right)\s*)?now|immediately"
 )
 def ruleNow(ts: datetime, _: RegexMatch) -> Time:
     return Time(
@@ -257,14 +257,14 @@ def ruleBeforeYesterday(ts: datetime, _: RegexMatch) -> Time:
     return Time(year=dm.year, month=dm.month, day=dm.day)
 
 
-@rule(r"(das )?ende (des|dieses) monats?|(the )?(EOM|end of (the )?month)")
+@rule(r"(\bdas )?ende (des|dieses) monats?|(the )?(EOM|end of (the )?month)")
 def ruleEOM(ts: datetime, _: RegexMatch) -> Time:
     dm = ts + relativedelta(day=1, months=1, days=-1)
     return Time(year=dm.year, month=dm.month, day=dm.day)
 
 
 @rule(
-    r"(das )?(EOY|jahr(es)? ?ende|ende (des )?jahr(es)?)|"
+    r"(\bdas )?(EOY|jahr(es)? ?ende|ende (des )?jahr(es)?)|"
     r"(the )?(EOY|end of (the )?year)"
 )
 def ruleEOY(ts: datetime, _: RegexMatch) -> Time:
@@ -504,7 +504,7 @@ def _maybe_apply_am_pm(t: Time, ampm_match: str) -> Time:
     # match hhmm
     r"(?<!\d|\.)(?P<hour>(?:[01]\d)|(?:2[0-3]))(?P<minute>(?&_minute))"
     r"\s*(?P<clock>(?:uhr|h)\b)?"  # optional uhr, not the first letter of a word
-    r"\s*(?P<ampm>\s*[ap]\.?m\.?)?(?!\d)"  # optional am/pm
+    r"\s*(?P<ampm>\s*[ap]\.?m\b\.?)?(?!\d)"  # optional am/pm, not the first letters of a word
 )
 def ruleHHMMmilitary(ts: datetime, m: RegexMatch) -> Optional[Time]:
     t = Time(hour=int(m.match.group("hour")), minute=int(m.match.group("minute") or 0))
@@ -519,7 +519,7 @@ def ruleHHMMmilitary(ts: datetime, m: RegexMatch) -> Optional[Time]:
     # We try to match also the minute
     r"((?P<sep>:|uhr|h|\.)(?P<minute>(?&_minute)))?"
     r"\s*(?P<clock>(?:uhr|h)\b)?"  # We match uhr with no minute
-    r"(?P<ampm>\s*[ap]\.?m\.?)?"  # AM PM
+    r"(?P<ampm>\s*[ap]\.?m\b\.?)?"  # AM PM, not the first letters of a word
     r"(?!\d)"
 )
 def ruleHHMM(ts: datetime, m: RegexMatch) -> Time:
@@ -535,7 +535,7 @@ def ruleHHOClock(ts: datetime, m: RegexMatch) -> Time:
     return Time(hour=int(m.match.group("hour")))
 
 
-@rule(r"(a |one )?quarter( to| till| before| of)|vie?rtel vor", predicate("isTOD"))
+@rule(r"\b((a |one )?quarter( to| till| before| of)|vie?rtel vor)", predicate("isTOD"))
 def ruleQuarterBeforeHH(ts: datetime, _: RegexMatch, t: Time) -> Optional[Time]:
     # no quarter past hh:mm where mm is not 0 or missing
     if t.minute:
@@ -546,7 +546,7 @@ def ruleQuarterBeforeHH(ts: datetime, _: RegexMatch, t: Time) -> Optional[Time]:
         return Time(hour=23, minute=45)
 
 
-@rule(r"((a |one )?quarter( after| past)|vie?rtel nach)", predicate("isTOD"))
+@rule(r"\b((a |one )?quarter( after| past)|vie?rtel nach)", predicate("isTOD"))
 def ruleQuarterAfterHH(ts: datetime, _: RegexMatch, t: Time) -> Optional[Time]:
     if t.minute:
         return None
@@ -621,7 +621,7 @@ def rulePODDate(ts: datetime, pod: Time, d: Time) -> Time:
 
 
 @rule(
-    r"((?P<not>not |nicht )?(vor|before))|(bis )?spätestens( bis)?|bis|latest",
+    r"((?P<not>\b(not|nicht) )?(vor|before))|(bis )?spätestens( bis)?|bis|latest",
     dimension(Time),
 )
 def ruleBeforeTime(ts: datetime, r: RegexMatch, t: Time) -> Interval:
@@ -632,7 +632,7 @@ def ruleBeforeTime(ts: datetime, r: RegexMatch, t: Time) -> Interval:
 
 
 @rule(
-    r"((?P<not>not |nicht )?(nach|after))|(ab )?frühe?stens( ab)?|ab|"
+    r"((?P<not>\b(not|nicht) )?(nach|after))|(ab )?frühe?stens( ab)?|ab|"
     "(from )?earliest( after)?|from",
     dimension(Time),
 )
